@@ -80,6 +80,10 @@ def gen_history(ctx, hid, sc, nops):
                 files = [H.newfile("ACGT\n>a\nACGT\n>b\nACGT\n")]      # reader failure
             if rng.random() < 0.05:
                 files.append(H.newfile(""))                              # empty extra file
+            if rng.random() < 0.12:
+                # an extra input that is no alignment file at all (notes, a table): whatever the reader makes of it, nothing stays allocated
+                junk = "".join(rng.choice(["notes on this run\n", "sample\tcount\n", "12 34 56\n", "see the lab book, page 12\n", "\n"]) for _ in range(rng.randint(1, 400)))
+                files.insert(rng.randint(0, len(files)), H.newfile(junk))
             h = nexth
             nexth += 1
             if rng.random() < 0.08:
